@@ -77,6 +77,14 @@ var corpus = []corpusItem{
 	{"dynblock", "dynamic \"mp\" {\n  for_each = mp\n  iterator = it\n  labels = [\"k${it.key}${k}\"]\n  content {\n    x = it.value\n    n = n\n  }\n}\ndynamic \"mp\" {\n  for_each = [mp, mp]\n  labels = [mp.key]\n  content {\n    x = s\n  }\n}\n"},
 	{"dynblock", "dynamic \"at\" {\n  for_each = [s]\n  content {\n    p = at.value\n    q = x\n  }\n}\nat {\n  r = v\n}\n"},
 	{"dynblock", "dynamic \"blk\" {\n  for_each = [1]\n  content {\n    x = [for blk in [blk.value] : blk]\n    y = t\n  }\n}\ndynamic \"tup\" {\n  for_each = tp\n  iterator = it\n  content {\n    x = tup\n    y = it.key\n  }\n}\n"},
+	// colliding for-scopes: after an inner for that re-binds a name ends, the name is the OUTER for's again
+	{"native", `[for x in [[1, 2], [3]] : [[for x in x : x + n], x[0]]]`},
+	{"native", `{for k, v in {a = [1], b = [2]} : "${isnull([for v, k in v : [k, v]])}-${k}" => [v, k] if !isnull([for k in v : k]) && k != v}`},
+	{"native", `[for x, x in [x, x] : [x, [for x in [x] : x], x]]`},
+	{"native", `[[for v in l : v], v, [for v in [v] : v], v]`},
+	{"native", `"%{ for x in [[1, 2], [3]] }%{ for x in x }${x}%{ endfor }/${x[0]};%{ endfor }${x}"`},
+	{"template", `%{ for x in [["a", "b"], ["c"]] }%{ for x in x }${x}%{ endfor }/${x[0]};%{ endfor }${x}`},
+	{"json", `{"%{ for x in [[1], [2]] }%{ for x in x }${x}%{ endfor }${x[0]}%{ endfor }": "${[for v in [[v]] : [[for v in v : v], v]]}"}`},
 }
 
 type caseData struct {
@@ -88,6 +96,7 @@ type caseData struct {
 	tree *jnode
 	bg   *bodyGen
 	feat map[string]int
+	nest bool // native text from the nest stream: also emitted as a model (ceval) case
 }
 
 var extraNames = []string{"v", "k", "x", "i", "v2", "lst", "mp", "it", "jt", "tup", "inner", "blk", "at", "extra", "q"}
@@ -140,13 +149,21 @@ func build(kind string, seed uint64, text *string) *caseData {
 	var gen string
 	switch kind {
 	case "native":
-		if r.Chance(0.35) {
+		switch x := r.Intn(100); {
+		case x < 25:
+			gen = nestExpr(g, cd.feat) // colliding for-scopes (nest.go)
+			cd.nest = true
+		case x < 50:
 			gen = shadowWrap(g, cd.feat)
-		} else {
+		default:
 			gen = g.GenTopExpr()
 		}
 	case "template":
-		gen = templateBody(g, cd.feat)
+		if r.Chance(0.4) {
+			gen = nestTemplate(g, cd.feat)
+		} else {
+			gen = templateBody(g, cd.feat)
+		}
 	case "json":
 		cd.tree = genJSON(g, cd.feat, 2)
 		gen = cd.tree.text()
@@ -232,7 +249,7 @@ func runCase(rep *hv.Report, cd *caseData) {
 
 func run(cfg *hv.RunCfg) error {
 	rep := hv.NewReport("C07", cfg.Seed)
-	rep.Rule = "per case: a context chain of 1-3 frames (hv.EvalGen.GenScope: variables of every cty kind, nulls, refined unknowns, marks) plus EXTRA variables named like for/template-for/dynamic iterators; source text from the typed expression generator (hv.EvalGen), wrapped with probability ~1/3 under for expressions / template for directives whose iterator shadows a scope variable; kinds native 40%, template 10%, json 15%, hcldec 15% (random ObjectSpec of Attr/Default/Block/BlockList/BlockMap/BlockTuple/BlockSet/BlockObject/BlockAttrs specs, 0-3 blocks per type, nested block lists), dynblock 20% (the same with dynamic blocks: iterator attribute, labels, nested dynamic blocks, static blocks inside content, iterator names also used free); 8% of the texts are byte-mutated (hv.Mutate); non-trivial = source longer than 3 bytes; distinct by SHA-256 of (kind, case seed, text)"
+	rep.Rule = "per case: a context chain of 1-3 frames (hv.EvalGen.GenScope: variables of every cty kind, nulls, refined unknowns, marks) plus EXTRA variables named like for/template-for/dynamic iterators; source text from the typed expression generator (hv.EvalGen), wrapped with probability ~1/4 under for expressions / template for directives whose iterator shadows a scope variable; NEST stream (25% of native, 40% of template, ~20% of JSON strings, ~8% of body attributes): for expressions and template for directives over a pool of 2-3 names, so that nested / sibling / shadowing scopes bind equal names, key == value variable, a for mentions its own name in its collection, and names are used before, inside and AFTER the for that binds them, in collection, key, value, condition and directive position (what each text exercises is measured on its AST: histogram forscope:*); the first 450 (thorough: 3000) native nest cases are also model cases (Eval/EvalCheck.v: Variables() occurrence list, value, diagnostics); kinds native 40%, template 10%, json 15%, hcldec 15% (random ObjectSpec of Attr/Default/Block/BlockList/BlockMap/BlockTuple/BlockSet/BlockObject/BlockAttrs specs, 0-3 blocks per type, nested block lists), dynblock 20% (the same with dynamic blocks: iterator attribute, labels, nested dynamic blocks, static blocks inside content, iterator names also used free); 8% of the texts are byte-mutated (hv.Mutate); non-trivial = source longer than 3 bytes; distinct by SHA-256 of (kind, case seed, text)"
 	if cfg.Replay != "" {
 		b, err := os.ReadFile(cfg.Replay)
 		if err != nil {
@@ -247,9 +264,19 @@ func run(cfg *hv.RunCfg) error {
 		return rep.Write(cfg.Out)
 	}
 	astOnlyProbe(rep)
+	// model cases of the nest stream (nest.go): at most nestCap per run
+	nestCap := 450
+	if cfg.Tier == "thorough" {
+		nestCap = 3000
+	}
+	cq := &coqCases{dir: cfg.Out}
 	for i, c := range corpus {
 		t := c.text
-		runCase(rep, build(c.kind, uint64(1000+i%7), &t))
+		cd := build(c.kind, uint64(1000+i%7), &t)
+		if c.kind == "native" {
+			cq.add(rep, len(rep.CaseIndex), cd.text, cd.ctx)
+		}
+		runCase(rep, cd)
 		rep.Hist("corpus")
 	}
 	if files, err := filepath.Glob("/verif/corpus/C07/*.replay"); err == nil {
@@ -279,8 +306,19 @@ func run(cfg *hv.RunCfg) error {
 		default:
 			kind = "dynblock"
 		}
-		runCase(rep, build(kind, seed, nil))
+		cd := build(kind, seed, nil)
+		if cd.nest && len(cq.cases) < nestCap {
+			cq.add(rep, len(rep.CaseIndex), cd.text, cd.ctx)
+		}
+		runCase(rep, cd)
 	}
-	rep.CaseFiles = []string{}
+	names, err := cq.flush(75)
+	if err != nil {
+		return err
+	}
+	rep.CaseFiles = names
+	if names == nil {
+		rep.CaseFiles = []string{}
+	}
 	return rep.Write(cfg.Out)
 }
